@@ -52,6 +52,9 @@ type Server struct {
 	wg         *sync.WaitGroup
 	onConnect  ConnectHook
 	onClose    TerminateHook
+	// lock protects shuttingDown and orders wg.Add (in Serve) with wg.Wait (in Shutdown)
+	lock         *sync.Mutex
+	shuttingDown bool
 }
 
 // ConnectHook wraps the configured connectHook function, calling it with the provided context.
@@ -99,6 +102,8 @@ func NewServer(listener net.Listener, handler RequestHandler) *Server {
 		new(sync.WaitGroup),
 		nil,
 		nil,
+		new(sync.Mutex),
+		false,
 	}
 }
 
@@ -146,7 +151,16 @@ func (srv *Server) Serve() error {
 			return err
 		}
 		vp("serve.accepted", conn)
+		// A connection accepted while Shutdown is in progress must not be served: Shutdown may already be
+		// waiting (or have stopped waiting) for the connections counted so far.
+		srv.lock.Lock()
+		if srv.shuttingDown {
+			srv.lock.Unlock()
+			_ = conn.Close()
+			return ErrShutdown
+		}
 		srv.wg.Add(1)
+		srv.lock.Unlock()
 		go srv.handleConn(conn)
 	}
 }
@@ -162,6 +176,10 @@ func (srv *Server) Serve() error {
 func (srv *Server) Shutdown() error {
 	srv.logger.Warn("Shutting down")
 	// 1. Close listener to prevent new incoming conections
+	// 0. From now on Serve does not start serving connections anymore
+	srv.lock.Lock()
+	srv.shuttingDown = true
+	srv.lock.Unlock()
 	vp("sd.close", srv)
 	err := srv.listener.Close()
 	// 2. Cancel recvCtx to stop receiving new requests
